@@ -23,6 +23,22 @@ def e2(rnd, count, big):
                 sc.append('%s 1 300 %d %d' % (op, n + off, off))
     sc += ['msinkhuge %d %d' % (k, d) for k in range(6) for d in (0, 1, 8, 9, 10, 200)]
     yield sc
+    # varint prefixes of five to ten octets: announcements of 2^28 .. 2^64-1 (no destination has that much room: out of memory, nothing
+    # written) and non-minimal encodings of small lengths (trailing zero groups), which decode like the minimal ones
+    sc = []
+    longs = [[0x80] * 9 + [0x01], [0xff] * 9 + [0x01], [0x80] * 8 + [0x01], [0xff] * 8 + [0x7f], [0x80, 0x80, 0x80, 0x80, 0x01], [0xff, 0xff, 0xff, 0xff, 0x0f],
+             [0x80, 0x80, 0x80, 0x80, 0x80, 0x80, 0x80, 0x40], [0x85, 0x80, 0x80, 0x80, 0x10], [0xff] * 7 + [0x7f], [0x81] * 9 + [0x00]]
+    longs += [[0x80 | rnd.randint(0, 127) for _ in range(rnd.randint(4, 8))] + [rnd.randint(1, 127)] for _ in range(6)]
+    small = [[0x85, 0x80, 0x80, 0x80, 0x80, 0x00], [0x83] + [0x80] * 8 + [0x00], [0x81, 0x81, 0x80, 0x80, 0x00], [0xff, 0x80, 0x80, 0x80, 0x80, 0x80, 0x00]]
+    for pre in longs + small:
+        n = (pre[0] & 127) + ((pre[1] & 127) << 7) if pre in small else 5
+        stream = pre + [(i + 1) % 256 for i in range(n)]
+        for f in (1, 3, 100000):
+            for cap in (1, n, n + 7, 300):
+                sc.append('mdec 0 %d %d %d %s' % (cap, f, len(stream), ' '.join(map(str, stream))))
+                sc.append('bdec 0 %d %d %d %d %d %s' % (cap + 4, 4, rnd.randint(0, 4), f, len(stream), ' '.join(map(str, stream))))
+            sc.append('sdec 0 %d %d %s' % (f, len(stream), ' '.join(map(str, stream))))
+    yield sc
     for _ in range(count):
         sc = []
         for _ in range(12):
